@@ -107,12 +107,36 @@ def crash_key(sig):
 
 def run_docutils(ctx, case, text, kw, src=None):
     """-> (doc, warnings) or None after recording the violation."""
+    import signal
+
+    def _alarm(signum, frame):
+        raise core.WallClockSuspicion()
+
     REACH.begin_case(budget(text))
+    old = signal.signal(signal.SIGALRM, _alarm)
+    signal.setitimer(signal.ITIMER_REAL, case.get("alarm_s", 60))
     try:
-        doc, w = drive.parse(text, source_path=src or os.path.join(TMP, "doc.md"), **kw)
+        try:
+            doc, w = drive.parse(text, source_path=src or os.path.join(TMP, "doc.md"), **kw)
+        finally:
+            signal.setitimer(signal.ITIMER_REAL, 0)
+            signal.signal(signal.SIGALRM, old)
     except core.StepBudgetExceeded as e:
         REACH.end_case()
         ctx.violation("termination:step-budget", f"parse exceeded its logical step budget: {e}", case, {"text": text[:2000]})
+        return None
+    except core.WallClockSuspicion:
+        # the myst_parser step budget did not trip, so the time is being spent inside a dependency: decide in logical steps over all code
+        REACH.end_case()
+        glob_budget = 4_000_000 + 400_000 * len(text)
+        outcome, n = mon.run_with_global_step_budget(lambda: drive.parse(text, source_path=src or os.path.join(TMP, "doc.md"), **kw), glob_budget)
+        if outcome == "exceeded":
+            ds = list(kw.get("myst_disable_syntax") or [])
+            key = "termination:markdown-it-loops-without-its-paragraph-rule" if "paragraph" in ds else "termination:step-budget:all-code"
+            ctx.violation(key, f"no result after {n} function entries of all code for a text of {len(text)} characters (the myst_parser-only budget did not trip: the time is spent inside a dependency)", case,
+                          {"text": text[:2000], "config": {k: repr(v)[:200] for k, v in kw.items()}})
+        else:
+            ctx.count("slow_case_finished_within_global_budget:" + outcome.split(":")[0])
         return None
     except KeyboardInterrupt:
         raise
@@ -414,6 +438,23 @@ def run_shard(ctx):
             ctx.sample({"kind": "doc", "sub": sub, "text": text[:300], "cfg": cfg})
         if (i & 0x1F) == 0 and ctx.time_left() < ctx.budget_s * 0.42:
             break
+    # every syntax rule of the Markdown parser switched off on its own (disable_syntax accepts any rule name): the parse must still end
+    from markdown_it.renderer import RendererHTML
+
+    from myst_parser.config.main import MdParserConfig
+    from myst_parser.parsers.mdit import create_md_parser
+
+    allr = create_md_parser(MdParserConfig(enable_extensions=[e for e in G.ALL_EXT if e != "linkify"]), RendererHTML).get_all_rules()
+    rule_names = sorted({n for v in allr.values() for n in v})
+    text_r = "# H\n\ntext *em* [l](u) `c` <b>x</b> &amp; \\* $m$ {sub}`r`\n\n- item\n\n> q\n\n```\ncode\n```\n\n| a |\n|---|\n\n[r]: u\n\nterm\n: def\n\n***\n"
+    for k, nm in enumerate(rule_names):
+        if k % ctx.nshards != ctx.shard:
+            continue
+        case = {"kind": "doc", "sub": "rule-disabled", "text": text_r, "cfg": {"disable_syntax": [nm], "enable_extensions": [e for e in G.ALL_EXT if e != "linkify"]}, "alarm_s": 5}
+        eval_case(ctx, case)
+        ctx.case(("rule-disabled", nm), True)
+        ctx.count("rules_disabled_one_by_one")
+    ctx.subrun("each_rule_disabled", exhaustive=True, rules=len(rule_names) if ctx.shard == 0 else 0)
     nf = 250 if quick else 12000
     for i in range(nf):
         case = rand_fault_case(R)
